@@ -161,7 +161,7 @@ func VerifH05a() {
 	ctx := context.Background()
 	order := nd.Choice("maporder", 2)
 	nd.SetMapOrder(order)
-	N := 3
+	N := 2
 	if nd.Tier() == 1 {
 		N = 4
 	}
@@ -242,6 +242,19 @@ func VerifH05a() {
 	_, open := u.txStore.Get(verifT1)
 	nd.Assert(!open, "H05a.open-tx-gone")
 
+	// "whatever other database instances the same process has opened before or MEANWHILE":
+	// optionally another database (its own records, any sequence numbers) is loaded now
+	if nd.Choice("other-db-loaded-meanwhile", 2) == 1 {
+		orepo := &verifRepo{}
+		oseq := sequence.Seq(nd.U64("other-db-seq"))
+		nd.Assume(nd.And(oseq > 0, oseq < 1<<62))
+		if nd.Choice("other-db-empty", 2) == 0 {
+			orepo.all = append(orepo.all, model.File{Key: "x", TxId: model.MainTxId, ContentId: "other", Seq: oseq})
+		}
+		_, oerr := New(orepo).Load(ctx)
+		nd.Assert(oerr == nil, "H05a.other-load-ok")
+		nd.Reach("H05a.other-db")
+	}
 	// the first acknowledged write after the reopen supersedes every persisted version
 	wk := verifKeys[nd.Choice("write-key", 2)]
 	err = u.Store(ctx, model.File{Key: wk, TxId: model.MainTxId, ContentId: "new"})
